@@ -16,7 +16,11 @@
 (*          near    : function from NEAR-EQUAL VARIANT tokens to the token *)
 (*                    they differ from in exactly ONE field, and there only*)
 (*                    slightly (a fractional threshold, +-1 on an integer  *)
-(*                    field, a flipped enum),                              *)
+(*                    field, a flipped enum; for a COMPOSITE field - a map *)
+(*                    or list such as hotspot SpecificItems - ONE ENTRY:   *)
+(*                    a key replaced in a map of the same size, an entry   *)
+(*                    added / removed, one value changed, nil vs empty, a  *)
+(*                    key of another type with the same spelling),         *)
 (*          mod     : name of the module ("flow", "isolation", "hotspot",  *)
 (*                    "circuitbreaker", "system", "outlier"; "any" where   *)
 (*                    no parametric token is used),                        *)
